@@ -9,12 +9,26 @@ Section Ord.
   Variable pat : rule -> list (key * bool).
   Variable rfree : rule -> bool.        (* rules whose value carries no content *)
   Variable tfree : kind -> bool.        (* token kinds that carry no content *)
+  Variable xr : rule -> list (key * key). (* pairs of keys a node never holds together *)
+
+  (* no item with key q can be present yet: q's position lies beyond the recorded progress *)
+  Definition abs_empty (p : list (key * bool)) (st : pstate) (q : key) : bool :=
+    match pindex p q with
+    | Some (pos, _) => (fst st <? pos) || ((pos =? fst st) && negb (snd st))
+    | None => false
+    end.
+  Definition xr_ok (f : aframe) (q : key) : bool :=
+    forallb (fun pr => (if key_beq q (fst pr) then abs_empty (pat (af_rule f)) (af_st f) (snd pr) else true)
+                       && (if key_beq q (snd pr) then abs_empty (pat (af_rule f)) (af_st f) (fst pr) else true))
+            (xr (af_rule f)).
 
   Definition o_add (f : aframe) (q : key) (free : bool) : option pstate :=
-    match pindex (pat (af_rule f)) q with
-    | Some _ => pstep (pat (af_rule f)) (af_st f) q
-    | None => if free then Some (af_st f) else None
-    end.
+    if xr_ok f q then
+      match pindex (pat (af_rule f)) q with
+      | Some _ => pstep (pat (af_rule f)) (af_st f) q
+      | None => if free then Some (af_st f) else None
+      end
+    else None.
 
   Definition o_prod (k : kind) (p : prod) (stk : dstk) : option dstk :=
     match p with
